@@ -262,6 +262,7 @@ func (wk *worker) run(fn *ssa.Function) (err error) {
 		if !first || true {
 			for _, pk := range reinit {
 				wk.i.ps = nil
+				wk.i.replaced = nil // replacements installed by the previous path's harness do not apply to initialisers
 				wk.i.reinit(pk)
 			}
 		}
@@ -342,6 +343,7 @@ func (wk *worker) onePath(fn *ssa.Function, prefix []decision) {
 	i.pools = nil
 	i.panicStack = nil
 	i.fmtDepth = 0
+	i.reverseMaps = false
 	i.callStack = i.callStack[:0]
 	for k := range i.funcsHit {
 		delete(i.funcsHit, k)
